@@ -1,0 +1,12 @@
+//go:build !verif
+
+// Package verifhook provides observation points for the model-based
+// verification harness under /verif. Without the `verif` build tag (this
+// file) the hooks are compiled out.
+package verifhook
+
+// On reports whether the hooks are compiled in.
+const On = false
+
+// Point is a no-op without the verif build tag.
+func Point(site string, kv ...interface{}) {}
